@@ -43,12 +43,73 @@ def _rename(o, off_l, off_b, off_p):
     return n
 
 
+def _opt_inner(ty):
+    pre = "std::option::Option<"
+    return ty[len(pre):-1] if ty.startswith(pre) and ty.endswith(">") else None
+
+
+def desugar_combinators(m):
+    """`Option::and_then(o, f)` / `Option::map(o, f)` with `f` a function item are rewritten to the match they
+    abbreviate (None -> None; Some(v) -> f(v) / Some(f(v))), so that a helper passed by name is seen like a
+    helper called directly.  This is std's documented definition of the two combinators."""
+    n0 = len(m["blocks"])
+    for bi in range(n0):
+        b = m["blocks"][bi]
+        t = b["term"]
+        if b.get("cleanup") or t["k"] != "call" or "callee" not in t:
+            continue
+        name = t["callee"].get("path", "")
+        if name not in ("std::option::Option::<T>::and_then", "std::option::Option::<T>::map"):
+            continue
+        if len(t["args"]) != 2 or t["args"][1].get("k") != "const" or "fn" not in t["args"][1] or t.get("target") is None:
+            continue
+        if t["dest"]["p"] or t["args"][0]["k"] == "const":
+            continue
+        oty = t["args"][0]["place"]["ty"]
+        inner = _opt_inner(oty)
+        dty = t["dest"]["ty"]
+        if inner is None or _opt_inner(dty) is None:
+            continue
+        loc = t.get("loc", {"file": "", "line": None})
+        L = len(m["locals"])
+        l_opt, l_d, l_v, l_r = L, L + 1, L + 2, L + 3
+        is_map = name.endswith("::map")
+        m["locals"].extend([{"ty": oty, "mut": True}, {"ty": "isize", "mut": True}, {"ty": inner, "mut": True},
+                            {"ty": _opt_inner(dty) if is_map else dty, "mut": True}])
+        B = len(m["blocks"])
+        b_none, b_some = B, B + 1
+        b["stmts"].append({"k": "assign", "place": {"l": l_opt, "p": [], "ty": oty}, "rv": {"k": "use", "op": t["args"][0]}, "loc": loc})
+        b["stmts"].append({"k": "assign", "place": {"l": l_d, "p": [], "ty": "isize"}, "rv": {"k": "discr", "place": {"l": l_opt, "p": [], "ty": oty}}, "loc": loc})
+        b["term"] = {"k": "switch", "discr": {"k": "move", "place": {"l": l_d, "p": [], "ty": "isize"}}, "discr_ty": "isize",
+                     "targets": [[0, b_none]], "otherwise": b_some, "loc": loc}
+        m["blocks"].append({"stmts": [{"k": "assign", "place": t["dest"], "rv": {"k": "aggregate", "agg": "adt", "adt": "std::option::Option",
+                                                                                "variant": "None", "vidx": 0, "fields": [], "ops": []}, "loc": loc}],
+                            "term": {"k": "goto", "target": t["target"]}})
+        some_stmts = [{"k": "assign", "place": {"l": l_v, "p": [], "ty": inner},
+                       "rv": {"k": "use", "op": {"k": "move", "place": {"l": l_opt, "p": [{"dc": 1, "n": "Some"}, {"f": 0, "n": "0"}], "ty": inner}}}, "loc": loc}]
+        call = {"k": "call", "callee": t["args"][1]["fn"], "args": [{"k": "move", "place": {"l": l_v, "p": [], "ty": inner}}],
+                "unwind": None, "loc": loc}
+        if is_map:
+            call["dest"] = {"l": l_r, "p": [], "ty": _opt_inner(dty)}
+            call["target"] = B + 2
+            m["blocks"].append({"stmts": some_stmts, "term": call})
+            m["blocks"].append({"stmts": [{"k": "assign", "place": t["dest"], "rv": {"k": "aggregate", "agg": "adt", "adt": "std::option::Option", "variant": "Some",
+                                                                                    "vidx": 1, "fields": ["0"], "ops": [{"k": "move", "place": {"l": l_r, "p": [], "ty": _opt_inner(dty)}}]}, "loc": loc}],
+                                "term": {"k": "goto", "target": t["target"]}})
+        else:
+            call["dest"] = t["dest"]
+            call["target"] = t["target"]
+            m["blocks"].append({"stmts": some_stmts, "term": call})
+    return m
+
+
 def inline_mir(prog, key, stop, maxdepth=4, _stack=(), max_blocks=6000):
     """Returns (mir dict, promoted list, inlined callee keys)."""
     fn = prog.fns[key]
     m = copy.deepcopy(fn["mir"])
     prom = list(copy.deepcopy(fn.get("promoted") or []))
     inlined = []
+    desugar_combinators(m)
     # drop cleanup blocks' influence: keep them (ids must stay stable) but cut unwind edges
     for b in m["blocks"]:
         t = b["term"]
